@@ -87,6 +87,7 @@ def pair_worker(task):
             homonyms.setdefault(u_, []).append((qc, f_))
     homonyms = {u_: v for u_, v in homonyms.items()
                 if len(set(f_ for _, f_ in v)) > 1}
+    kept = None
     for a in Q[lo:hi]:
         if a.__name__ not in REF:
             bad.append(("unknown-quantity-class", a.__name__))
@@ -124,6 +125,18 @@ def pair_worker(task):
                     if got != exp:
                         bad.append(("signature", a.__name__, name, b.__name__,
                                     type(r).__name__, got, exp))
+                    # an earlier result that was kept still has its own
+                    # signature, value and unit text
+                    if kept is not None:
+                        kr, kexp, kval, kunit, kwho = kept
+                        if sig_of(kr, SI) != kexp or float(kr) != kval or \
+                                kr.unit != kunit:
+                            bad.append(("kept-result-changed-by-a-later-"
+                                        "operation", kwho, sig_of(kr, SI),
+                                        kexp, (a.__name__, name,
+                                               b.__name__)))
+                    kept = (r, exp, float(r), r.unit,
+                            (a.__name__, name, b.__name__))
                     if float(r) != val and not (math.isnan(val)):
                         bad.append(("si-value", a.__name__, name, b.__name__,
                                     float(r), val, (va, ua, vb, ub)))
@@ -370,6 +383,41 @@ def my_unit_string(sg):
     return num + "/" + den
 
 
+def default_unit_checks(U):
+    """SI(v), SI(v, '') and SI(v, unit=''): generic values with the empty
+    signature, interchangeable with every other dimensionless value"""
+    SI = U.SI
+    bad = []
+    others = [("Dimensionless.asSI", U.Dimensionless(3.0).asSI()),
+              ("(Speed/Speed).asSI", (U.Speed(6.0) / U.Speed(2.0)).asSI()),
+              ("SI('m')/SI('m')", SI(3.0, "m") / SI(1.0, "m"))]
+    for label, mk in (("SI(v)", lambda: SI(3.0)),
+                      ("SI(v, '')", lambda: SI(3.0, "")),
+                      ("SI(v, unit='')", lambda: SI(3.0, unit="")),
+                      ("2*SI(v)/2", lambda: 2 * SI(3.0) / 2)):
+        try:
+            x = mk()
+            if list(x.sisig()) != [0] * 9 or float(x) != 3.0:
+                bad.append(("default-unit-signature", label,
+                            list(x.sisig())))
+            q = x.as_quantity(U.Dimensionless)
+            if type(q) is not U.Dimensionless or float(q) != 3.0:
+                bad.append(("default-unit-as_quantity", label))
+            for olabel, o in others:
+                if float(o) != 3.0:
+                    continue
+                if not (x == o) or (x != o) or not (o == x) or \
+                        not (x <= o) or (x < o) or not (x >= o) or \
+                        float(x + o) != 6.0 or float(x - o) != 0.0 or \
+                        float(o + x) != 6.0:
+                    bad.append(("default-unit-value-differs-from-"
+                                "dimensionless-value", label, olabel))
+        except Exception as ex:  # noqa
+            bad.append(("default-unit-raised", label, type(ex).__name__,
+                        str(ex)[:60]))
+    return bad
+
+
 def user_subclass_checks(U):
     SI = U.SI
     bad = []
@@ -480,6 +528,7 @@ def si_worker(task):
         # a quantity type defined by a user on top of a library type, with
         # its own signature (N.m/rad on top of Torque): used after the parent
         bad += user_subclass_checks(U)
+        bad += default_unit_checks(U)
         # the SI unit text of every named quantity class, in every format,
         # names the signature of that class
         for q in U.QUANTITIES:
